@@ -170,11 +170,9 @@ def classify(pb, p, known):
             return "param-stmt-literal-masked"
         if form == "bindattr" and col == "Attributes":
             return "attr-literal-masked"
-        if form == "strlen" and col in ("Type", "namelist-Type"):
-            if "len(" in exp and any(q in exp for q in "'\""):
-                return "strlen-literal-masked"
-            if "*" in exp and not markup(exp):
-                return "strlen-star-expression"
+        if form == "strlen" and col in ("Type", "namelist-Type") and not re.fullmatch(r"character\(len=\w+\)", exp) \
+                and not pb.get("positional", False) and "len=" in exp and not exp.startswith("character(len=kind("):
+            return "strlen-expression-truncated"
         if site in known and markup(exp):
             return "site:" + site
         return None
@@ -187,8 +185,6 @@ def classify(pb, p, known):
     if what == "return-value":
         if site in known and markup(pb["expected"]):
             return "site:" + site
-        if any("len=" in c and "*" in c for c in pb["expected"]):
-            return "strlen-star-expression"
         return None
     if what in ("declaration-not-displayed", "element-structure", "page-missing-in-control"):
         hs = hostile_sites(p)
@@ -214,6 +210,8 @@ WITNESS_SRC = """module m
   parameter (p3 = '<b>y')
   integer, bind(c, name="a<b>c") :: bv
   integer :: nv = 1
+  character(len=9) :: nlc = '<u>x</u>'
+  character(len=*), parameter :: lit1 = '<u>x</u>' // "a  b & c"
   type :: t_t
     integer :: c = 0
   contains
@@ -229,7 +227,7 @@ WITNESS_SRC = """module m
     function g2(a) result(res)
       integer, intent(in) :: a
       import :: k, n
-      character(len=kind(k<n)) :: res
+      character(kind(k<n)) :: res
     end function g2
     function g3(a) result(res)
       integer, intent(in) :: a
@@ -246,11 +244,15 @@ WITNESS_SRC = """module m
       import :: k, n
       type(t_t(k<n)) :: res
     end function g5
+    function g6(a) result(res)
+      integer, intent(in) :: a
+      type(t_t(4)) :: res
+    end function g6
   end interface
 contains
   subroutine s(a) bind(c, name="s<u>name")
     integer, intent(in) :: a
-    namelist /nl/ kk, nv
+    namelist /nl/ kk, nv, nlc
   end subroutine s
   subroutine s2(a) bind(c, name="two  blanks")
     integer, intent(in) :: a
@@ -288,14 +290,16 @@ def witness_facts():
         facts["site:macros.html:var.attribs | join(\", \")#1"] = r is None or "k<n" not in r
         r = row("kk")
         facts["site:macros.html:var.full_type | relurl(page_url)#1"] = r is None or "kind(k<n)" not in R.squash(r)
-        r = row("cstar")
-        facts["strlen-star-expression"] = r is not None and "len=2*k" not in R.squash(r)
-        r = row("clen")
-        facts["strlen-literal-masked"] = r is not None and "'<u>'" not in r
+        r, r2 = row("cstar"), row("clen")
+        facts["strlen-expression-truncated"] = (r is not None and "len=2*k" not in R.squash(r)) or \
+            (r2 is not None and "'<u>'" not in r2)
         r = row("p3")
         facts["param-stmt-literal-masked"] = r is not None and "'<b>y'" not in r
         r = row("bv")
         facts["attr-literal-masked"] = r is not None and 'name="a<b>c"' not in r
+        r = row("lit1")
+        facts["probe:macros.html:var.initial|e#1"] = r is None or "'<u>x</u>'//\"a  b & c\"" not in R.squash(r) \
+            or bool(soup.select("table.varlist u"))
         heads = [R.browser_text(h) for h in soup.find_all(["h2", "h3"])]
         facts["site:macros.html:proc.bindC#1"] = not any('name="s<u>name"' in h for h in heads)
         facts["bindc-blanks-collapse"] = not any('name="two  blanks"' in h for h in heads)
@@ -321,9 +325,13 @@ def witness_facts():
             ip = BeautifulSoup(_page(doc, f"interface/{name}.html"), "html.parser")
             rv = [R.squash(R.browser_text(h)) for h in ip.find_all(["h3", "h4"]) if R.browser_text(h).startswith("Return Value")]
             facts["site:" + key] = bool(rv) and not any(want in x for x in rv)
+        ip = BeautifulSoup(_page(doc, "interface/g6.html"), "html.parser")
+        rv = [R.squash(R.browser_text(h)) for h in ip.find_all(["h3", "h4"]) if R.browser_text(h).startswith("Return Value")]
+        facts["nongenint-proto-args-parens"] = bool(rv) and not any("type(t_t(4))" in x for x in rv)
         nl = BeautifulSoup(_page(doc, "namelist/nl.html"), "html.parser")
         t = R.squash(R.browser_text(nl))
         facts["site:macros.html:variable.full_type | relurl(page_url)#1"] = "integer(kind=kind(k<n))" not in t
+        facts["probe:macros.html:variable.initial | e#1"] = "'<u>x</u>'" not in t or bool(nl.find_all("u"))
     return facts
 
 
@@ -367,24 +375,6 @@ def end_to_end(chk, rng, n, known):
                                                 "job": job}, True)
     chk.extra["pages"] = dict(tot, projects=len(jobs), known_finding_hits=hits,
                               sites_exposed_to_markup=exposed, sites_where_markup_was_created=created)
-    # tie the regenerated site list to the runs: markup appears exactly at the sites the model calls unescaped
-    cases = [(f"CSite {coq_str(k)} {coq_bool(created.get(k, 0) > 0)}", {"f": "site-probe", "site": k,
-                                                                          "exposed": v, "created": created.get(k, 0)})
-             for k, v in sorted(exposed.items()) if v > 0]
-    for _, d in cases:
-        chk.count(("site", d["site"]), nontrivial=True, sample=d)
-    res = chk.coq_judge(IMPORTS, "case", "judge", [t for t, _ in cases])
-    if res is not None:
-        chk.traces += len(cases)
-        for idx, code in sorted(res.items()):
-            region = code >> 2
-            if code & 1:
-                chk.violation("failing-input" if code & 2 else "broken-correspondence",
-                              {"what": "markup created / not created at a site, against Gen/EscapeSites.v + Out/Escape.v",
-                               "case": cases[idx][1], "code": code}, bool(code & 2))
-            elif code & 2 and not (region == 1 and chk.known("site:" + cases[idx][1]["site"], True)):
-                chk.violation("failing-input", {"what": "markup created at a site", "case": cases[idx][1],
-                                                "code": code}, True)
 
 
 def judge_cases(chk, cases, what):
@@ -430,11 +420,34 @@ def run(chk):
     for payload in getattr(chk, "_c18_deferred", []):
         chk.violation("broken-correspondence", payload, False)
     facts = witness_facts()
-    chk.extra["witness_replay"] = {k: ("still fails" if v else "no longer fails") for k, v in facts.items()}
+    chk.extra["witness_replay"] = {k: ("still fails" if v else "no longer fails") for k, v in facts.items()
+                                   if not k.startswith("probe:")}
     if "__error__" in facts:
         chk.violation("failing-input", {"what": "FORD failed on the fixed witness project", "error": facts["__error__"]}, True)
+        facts = {}
+    # site probes: markup is created exactly at the sites that Gen/EscapeSites.v + Out/Escape.v call unescaped
+    probes = [(k.split(":", 1)[1], bool(v)) for k, v in sorted(facts.items()) if k.startswith(("site:", "probe:"))]
+    pcases = [(f"CSite {coq_str(site)} {coq_bool(seen)}", {"f": "site-probe", "site": site, "markup_created": seen})
+              for site, seen in probes]
+    for _, d in pcases:
+        chk.count(("site", d["site"]), nontrivial=True, sample=d)
+    res = chk.coq_judge(IMPORTS, "case", "judge", [tm for tm, _ in pcases])
+    if res is not None:
+        chk.traces += len(pcases)
+        for idx, code in sorted(res.items()):
+            d = pcases[idx][1]
+            if code & 1:
+                chk.violation("failing-input" if code & 2 else "broken-correspondence",
+                              {"what": "markup created / not created at a printing site, against Gen/EscapeSites.v and "
+                                       "the classification of Out/Escape.v", "case": d, "code": code,
+                               "witness_source": WITNESS_SRC}, bool(code & 2))
+            elif code & 2 and not ((code >> 2) == 1 and chk.known("site:" + d["site"], True)):
+                chk.violation("failing-input", {"what": "declaration text created markup at a printing site",
+                                                "case": d, "code": code, "witness_source": WITNESS_SRC}, True)
     for key, still in facts.items():
-        if key != "__error__" and not chk.known(key, bool(still)):
+        if key.startswith("probe:"):
+            continue
+        if not chk.known(key, bool(still)):
             chk.notes.append(f"witness {key} has no open entry in known_findings.d/C18.json")
     if not quick:
         chk.coqchk(["Ford.Props.C18"])
